@@ -64,8 +64,9 @@ CLAIMS["C15"] = (
     "Lean 4 model with explicit failure sites + K1 differential with implementation-side totality oracle", "§7 C15")
 CLAIMS["C05"] = (
     "Refinement proof (Lean 4): the semantics of the generated code equals the reference step loop for every program, depth profile and "
-    "user world; the property is a corollary on the reference loop (first failing step, lowest-numbered failing branch, value unchanged). "
-    "Tie: K1 (generator tokens) + K2 (real try macros compiled and run on every failure placement over small profiles and on random "
+    "user world; the property is a corollary on the reference loop (first failing step, lowest-numbered failing branch, value unchanged); "
+    "accepted_try_result carries it through the whole pipeline: whatever token list the parser model accepts (any syn oracle), the code expanded "
+    "from it returns Ok of all values or exactly the first failure. Tie: K1 (generator tokens) + K2 (real try macros compiled and run on every failure placement over small profiles and on random "
     "programs, compared with the reference semantics and with the semantics of the model's generated code).",
     NOTE_COMMON + "Async try variants: async_try_refines (AsyncTry.lean) proves the generated code equal to the async-try reference under the "
     "canonical schedule, and specLoopAT_failed that a failing run ends with the failing chain's end, value unchanged; which failing branch "
@@ -86,10 +87,10 @@ CLAIMS["C03"] = (REFINE + "Property theorems (Props/C03): on the calling thread 
                  "only after its thread finished) the step numbers of a whole run never decrease - all programs, worlds, sizes, panics included; "
                  "async_barrier_every_schedule (Async.lean Plan.Leveled): the `async move` block of any async macro, polled with ANY sequence of "
                  "sets of open gates (any order in which pending futures become ready, batches, spurious polls, finished or not), emits events "
-                 "whose step numbers never decrease - also when chains fail or panic. " + K2NOTE,
+                 "whose step numbers never decrease - also when chains fail or panic. accepted_steps_in_program_order: the same order from the tokens the caller wrote. " + K2NOTE,
                  NOTE_COMMON + ASYNC_NOTE, "Lean 4 refinement proof + order theorems on the reference loop; K2 barrier oracle on real executions", "§7 C03")
 CLAIMS["C04"] = (REFINE + "Props/C04: element i of a non-try result is what branch i's own last chain returned (∀ profiles); a step only touches "
-                 "the positions of its active branches; handler and result are built from the same list. " + K2NOTE,
+                 "the positions of its active branches; handler and result are built from the same list; accepted_result_positions: from the macro's tokens to the result tuple - whatever the parser accepts (any syn oracle), the code expanded from it returns, if at all, the tuple whose element i is what branch i's own last chain returned. " + K2NOTE,
                  NOTE_COMMON + ASYNC_NOTE + "For try macros the payload version is covered through C05 + K2.",
                  "Lean 4 refinement proof + position theorem on the reference loop; K2 on enumerated depth profiles", "§7 C04")
 CLAIMS["C06"] = (REFINE + "Props/C06: after a failing step j no event of a later step exists, every branch active in j ran its chain to the end, "
@@ -98,7 +99,7 @@ CLAIMS["C06"] = (REFINE + "Props/C06: after a failing step j no event of a later
                  "chain of step k ends with a failure (or panics), then under EVERY schedule of gate openings every event emitted from there on "
                  "belongs to step k — no capture, chain or callback of a later step, no handler call — and the future is either still in step k "
                  "or finished with that step's failure, unchanged (or the panic); failed_step_result_every_schedule: polled with every gate open "
-                 "it is finished, with exactly that. " + K2NOTE, NOTE_COMMON + ASYNC_NOTE,
+                 "it is finished, with exactly that; accepted_async_try: the async-try refinement for whatever the parser accepts. " + K2NOTE, NOTE_COMMON + ASYNC_NOTE,
                  "Lean 4 refinement proof + trace theorems; K2 event-log differential", "§7 C06")
 CLAIMS["C11"] = (REFINE + "Props/C11: the hoisting operator set equals the documented one (table theorem over regenerated T9); capture events are "
                  "exactly (active branch, position, operand) in order, once each; sorted before the chains of their step and after the previous "
@@ -188,9 +189,13 @@ CLAIMS["C09"] = ("Props/C09 (Lean 4), three layers. (1) Shape, every program: th
 CLAIMS["C10"] = ("Props/C10 (Lean 4) + refinement: in the reference loop every reached atom runs exactly once per step (capture events of a step "
                  "are pairwise distinct and exactly the hoisted operands; one chain per active branch; handler defined once, called at most "
                  "once), and the generated code has exactly these events (sync_refines). Token level (nothing dropped/duplicated in the "
-                 "expansion): K1 oracle that every operand marker occurring once in the input occurs exactly once in the real output. "
-                 "Moves/drops: K2 drop counters (C19 program).",
-                 NOTE_COMMON + "The token-multiset theorem (operand_occurs_once) is not yet a Lean theorem; rustc's move semantics are outside Lean (partial).",
+                 "expansion): gen_conserves_tokens (Lemmas/TokCount, Conserve) - for every program the generator accepts, every macro kind, any "
+                 "number of branches/steps/wrappers/block operands, every occurrence of a user identifier in the operands occurs exactly once "
+                 "among the hoisted definitions and chain expressions of the generated steps (through emission templates, hoisting, the wrapper "
+                 "stack with explicit and implicit closing, the split into steps); accepted_conserves_tokens: the same for whatever the parser "
+                 "accepts (Lemmas/ParseInit: `initial` occurs only in front of a branch, for every syn oracle); plus the K1 oracle that every "
+                 "operand marker occurring once in the input occurs exactly once in the real output. Moves/drops: K2 drop counters (C19 program).",
+                 NOTE_COMMON + "The conservation theorem speaks about the user-token-carrying fields of the structured code (definitions, chains, handler); that the printer writes each field once is by construction of Print.lean and compared token for token by K1; rustc's move semantics are outside Lean (partial).",
                  "Lean 4 refinement + once-only theorems on the reference loop; K1 marker oracle; K2 event lists", "§7 C10")
 CLAIMS["C16"] = ("Props/C16 (Lean 4, ∀ contexts): the joiner form of every step (custom joiner applied exactly once iff >1 active branches, to "
                  "the active branches' chains in branch order; default tuple / P::join!); operands are `move ||` closures iff lazy ∧ multi; "
